@@ -83,6 +83,14 @@ def replay(rec):
         r2 = kindl.real_solve(sc, q2 * 3 - 1, footprint=True, meas_pt=(sc["dx"], sc["dy"]), **kw)
         worst = max(kindl.rel_err(r1[1], r2[1]), kindl.rel_err(r1[2], r2[2]))
     else:
+        # special sources a data-dependent branch may single out: zero net flux, identically zero
+        for qs in (q1 - q1.mean(), np.zeros((ny, nx))):
+            g, cz0, fz0 = kindl.real_solve(sc, qs, srf_bg_conc=0.0, **kw)
+            g, cz1, fz1 = kindl.real_solve(sc, qs, srf_bg_conc=c1, **kw)
+            worst = max(worst, float(np.abs((np.asarray(cz1) - np.asarray(cz0)) - c1).max()) / abs(c1), kindl.rel_err(fz1, fz0) if np.abs(fz0).max() > 0 else float(np.abs(fz1).max()))
+            g, cs, fs = kindl.real_solve(sc, qs + q2, srf_bg_conc=c1 + c2, **kw)
+            g, cb_, fb_ = kindl.real_solve(sc, q2, srf_bg_conc=c2, **kw)
+            worst = max(worst, kindl.rel_err(cs, np.asarray(cz1) + np.asarray(cb_)), kindl.rel_err(fs, np.asarray(fz1) + np.asarray(fb_)))
         g, ca, fa = kindl.real_solve(sc, q1, srf_bg_conc=c1, **kw)
         g, cb, fb = kindl.real_solve(sc, q2, srf_bg_conc=c2, **kw)
         g, cc, fc = kindl.real_solve(sc, a * q1 + b * q2, srf_bg_conc=a * c1 + b * c2, **kw)
